@@ -1,17 +1,39 @@
 """C18 — the node never signs or admits slashable votes.
 
-specs/chain/CasperNode.tla: VerOk = signature valid, heights on epoch boundaries, source below target, no
-other checkpoint of the target height holding a slot of that validator, no surrounding / surrounded link
-of that validator in the tree. NoSlashableAdmitted / NoSlashableSent are model-checked; the replay
-compares the admitted verifications of every checkpoint in the tree, the verification events the node
-published (own votes and relayed ones) and the result class of every ProcessBlockVerification call.
+Part 1 (histories): specs/chain/CasperNode.tla — VerOk = signature valid, heights on epoch boundaries,
+source below target, no other checkpoint of the target height holding a slot of that validator, no
+surrounding / surrounded link of that validator in the tree. NoSlashableAdmitted / NoSlashableSent are
+model-checked; the replay compares the admitted verifications of every checkpoint in the tree, the
+verification events the node published (own votes and relayed ones) and the result class of every
+ProcessBlockVerification call.
+Part 2 (rules on synthetic engine states): specs/chain/SlashRules.tla enumerates every checkpoint tree
+with two branches (3 and 4 checkpoints above the root), every consistent set of <= 2 (thorough 3) earlier
+verifications of the voter and every new verification, with the verdict admitted / refused / dup;
+harness/cmd/c18 builds each state with real headers, checkpoint records and signatures in a real
+database.Store + casper.NewCasper and feeds the message to the real AuthVerification. This covers
+configurations no bounded history reaches (votes on a fork that split off below the source).
 """
+import os
 import chain_lib
+from common import Infra
 
 
 def run(ctx):
     parts = [chain_lib.run_casper(ctx)]
+    b = ctx.build("c18")
+    cfg = "cfg/SlashRules.quick.cfg" if ctx.tier == "quick" else "cfg/SlashRules.thorough.cfg"
+    r = chain_lib.tlc_cached(ctx, "chain/SlashRules", cfg, timeout=3000, tag="slash-rules", workers=8, min_exports=1000)
+    h = ctx.harness([b, "rules", r.path], timeout=3000, keep=chain_lib.mine(ctx))
+    s = h["summary"]
+    if s.get("cases", 0) != r.nexports and not h["violations"]:
+        raise Infra("rules replay covered %s of %d cases" % (s.get("cases"), r.nexports))
+    parts.append(dict(tlc=[r], states=r.distinct, transitions=r.generated, cases=s.get("cases", 0), calls=s.get("cases", 0),
+                      distinct=s.get("distinct", 0), samples=h["samples"][:1], other=len(h["other"]),
+                      configs=[dict(cfg=os.path.basename(cfg), synthetic_states=s.get("cases", 0), admitted=s.get("admitted"),
+                                    refused=s.get("refused"), dup=s.get("dup"))]))
     chain_lib.finish_chain(ctx, parts,
-        rule="every transition of CasperNode.tla within the cfg bounds, replayed with its path; admitted links, published "
-             "verification events and ProcessBlockVerification results compared",
-        assumptions=["E = 2, federation validators", "garbage signatures are modelled as one class (ok = FALSE)"])
+        rule="(1) every transition of CasperNode.tla within the cfg bounds + seeded deep random walks, replayed with its path; admitted links, "
+             "published verification events and ProcessBlockVerification results compared; (2) every case of SlashRules.tla "
+             "(synthetic engine state x new verification) executed on the real engine, verdict compared",
+        assumptions=["E = 2, federation validators", "garbage signatures are modelled as one class (ok = FALSE)",
+                     "part 2: the voter's earlier verifications are pairwise compatible (a consistent engine state)"])
